@@ -10,7 +10,7 @@ The algebraic laws quantify over values and are NOT decided in general. Claimed,
          eq == true edge.
   C19.Z  hash value 0 is mapped away (= C12.Z), so any value can be a table key.
 """
-from cao.facts import (AnchorMissing, callee_names, short, hir_walk, hir_callee, hir_strip, hir_local_id, pat_variants)
+from cao.facts import (AnchorMissing, callee_names, short, hir_walk, hir_callee, hir_strip, hir_local_id, pat_variants, pat_bindings)
 from cao.rules import Rule, ok, bad, undecided, note, R
 from cao import hirutil as hu
 
@@ -147,6 +147,23 @@ def rule_t(F):
         return [undecided("C19.T", key, fh.loc(ah.get("ln")), "the table hash combines per-row values; order sensitivity not decided")]
     if not seq:
         return [undecided("C19.T", key, fh.loc(ah.get("ln")), "the table hash feeds nothing recognisable to the hasher")]
+    # both walk the same view of the rows: a position-by-position eq over the insertion-ordered iterator and a sequential
+    # hash over the hash part's bucket order disagree as soon as two equal tables have different capacities
+    def row_views(arm):
+        out = set()
+        for y in hir_walk(arm["body"]):
+            if y.get("k") == "mcall" and y["name"] in ("iter", "iter_mut", "keys", "values", "into_iter"):
+                for n_ in hir_callee(y):
+                    if "CaoLangTable::" in n_ or "CaoHashMap::" in n_ or "HandleTable::" in n_:
+                        out.add(n_.rsplit("<", 1)[0])
+        return out
+    ve, vh = row_views(ae), row_views(ah)
+    if eq_ordered and ve and vh and not (vh <= ve):
+        return [bad("C19.T", key, fh.loc(ah.get("ln")),
+                    "table equality compares the rows in the order of %s, the table hash feeds them to the hasher in the order of %s: "
+                    "the bucket order of the hash part depends on the table's capacity history, which is not part of its value, so two "
+                    "tables that compare equal hash differently (a row stored under one is not found under the other)"
+                    % (sorted(x.rsplit("::", 2)[-2] + "::" + x.rsplit("::", 1)[-1] for x in ve), sorted(x.rsplit("::", 2)[-2] + "::" + x.rsplit("::", 1)[-1] for x in vh)))]
     if eq_ordered:
         res.append(ok("C19.T", key, fe.loc(ae.get("ln")), "eq is %s, the hash feeds the rows in the same order to one hasher" % eq_kind))
     else:
@@ -191,6 +208,54 @@ def rule_e(F):
                         res.append(bad("C19.E", key, f.loc(a.get("ln")), "the catch-all arm of eq does not answer false"))
         if n < 2:
             raise AnchorMissing("tuple arms in PartialEq for %s" % ty)
+    return res
+
+
+def rule_x(F):
+    """C19.X: equality of numbers is exact. In `PartialEq for Value` the (Integer, Integer) and (Real, Real) arms are the
+    payloads' own `==` on the two bound values and nothing else. A tolerance (|a - b| < eps) is not transitive - not an
+    equivalence relation - makes inf != inf, and disagrees with Hash, which feeds the exact bits."""
+    res = []
+    f = impl_fn(F, "cmp::PartialEq", "value::Value", "eq")
+    m = match_arms(f)
+    if m is None:
+        raise AnchorMissing("match in PartialEq for Value")
+    n = 0
+    for a in m["arms"]:
+        alts = a["pat"]["pats"] if a["pat"].get("k") == "or" else [a["pat"]]
+        for p in alts:
+            if not (p.get("k") == "tuple" and len(p["pats"]) == 2):
+                continue
+            l = [x[0].rsplit("::", 1)[-1] for x in pat_variants(p["pats"][0])]
+            r = [x[0].rsplit("::", 1)[-1] for x in pat_variants(p["pats"][1])]
+            if l != r or l not in (["Integer"], ["Real"]):
+                continue
+            n += 1
+            key = "C19/X/Value/(%s,%s)/exact-equality" % (l[0], r[0])
+            binds = [i for i, _n in pat_bindings(p)]
+            body = hir_strip(a["body"])
+            while body is not None and body.get("k") == "block" and not body["block"]["stmts"] and body["block"].get("expr") is not None:
+                body = hir_strip(body["block"]["expr"])
+
+            def operand_local(e):
+                e = hir_strip(e)
+                while e is not None and e.get("k") in ("un", "addr_of", "cast") and (e.get("k") != "un" or e.get("op") == "Deref"):
+                    e = hir_strip(e["e"])
+                return hir_local_id(e) if e is not None else None
+            good = False
+            if body is not None and body.get("k") == "bin" and body.get("op") == "Eq":
+                good = sorted([str(operand_local(body["l"])), str(operand_local(body["r"]))]) == sorted(map(str, binds))
+            elif body is not None and body.get("k") == "mcall" and body.get("name") == "eq":
+                good = sorted([str(operand_local(body["recv"])), str(operand_local(body["args"][0]))]) == sorted(map(str, binds))
+            if good:
+                res.append(ok("C19.X", key, f.loc(a.get("ln")), "payloads compared with =="))
+            else:
+                res.append(bad("C19.X", key, f.loc(a.get("ln")),
+                               "the (%s, %s) arm of PartialEq for Value is not the payloads' own `==`: a tolerance or converted comparison is not "
+                               "transitive (0.1+0.2 == 0.3 and 0.3 == 0.3+eps but not 0.1+0.2 == 0.3+eps), makes inf unequal to itself and "
+                               "disagrees with Hash; Equals / NotEquals cards and table keys change their meaning" % (l[0], r[0])))
+    if n < 2:
+        raise AnchorMissing("same-kind numeric arms in PartialEq for Value (found %d)" % n)
     return res
 
 
@@ -290,6 +355,7 @@ def rule_z(F):
 RULES = [
     Rule("C19.H", rule_h, 6, "hash never finer than eq (no pointer identity in the hasher)"),
     Rule("C19.T", rule_t, 1, "table equality and hash agree on row order"),
+    Rule("C19.X", rule_x, 2, "equality of numbers is the payloads' exact =="),
     Rule("C19.C", rule_c, 2, "numbers are ordered by their payload's own PartialOrd (consistent with ==)"),
     Rule("C19.E", rule_e, 6, "eq answers true only for same-kind pairs"),
     Rule("C19.O", rule_o, 2, "ordering of objects never contradicts equality"),
